@@ -142,11 +142,11 @@ DoStep ==
         gotO == Outs(rs)
         wantErr == r.obs = CErr
         noEvent == r.obs = <<[o |-> "NoEvent"]>>
-        a   == IF Ev.ev = "In" THEN AckStep(win, pend, FromNat(Ev.n)) ELSE [ack |-> <<>>, pend |-> pend]
+        a   == IF Ev.ev = "In" THEN AckStep(win, pend, FromNat(Ev.n)) ELSE [ack |-> <<>>, pend |-> pend, over |-> FALSE]
         gotA == Acks(rs)
         ackBad == IF Ev.ev # "In" THEN Len(gotA) # 0
                   ELSE IF a.ack = <<>> THEN Len(gotA) # 0
-                  ELSE ~(Len(gotA) = 1 /\ gotA[1].msg.v = a.ack[1])
+                  ELSE ~(Len(gotA) = 1 /\ (a.over \/ gotA[1].msg.v = a.ack[1]))
         refusedCall == wantErr /\ Ev.ev = "Call"
         \* a malformed status message: reporting an error or ignoring it are both fine, as long as nothing is raised,
         \* emitted or changed
